@@ -104,6 +104,13 @@ CHECKS = {
             'computed from the layout alone and with each other.',
             'Where the property is silent about zero-length files (free high-water mark, gap splitting) both readings are accepted.',
             'bounded-exhaustive enumeration of disc layouts against a reference allocation model'),
+    'C15': ('exploration', '4 C15',
+            'All wildcard strings of length <=2/3 over a 23-character alphabet containing every regex metacharacter, plus all '
+            'qualified shapes [:drive.][dir.]body, x all names of length <=2 x 4 directories x 3 contexts through the real '
+            'AFSPMatcher in-process (ASan); info PATTERN and type SPELLING (all spellings x case variants x --dir, Opus volume '
+            'prefixes) through the real binary; oracle = reference matcher from doc/dfs.1.',
+            'Strings outside the documented grammar only have to not crash; catalogue names never contain . : # *.',
+            'bounded-exhaustive pattern x name matrix against a reference matcher'),
 }
 
 NA_REASON = 'check not built yet (work in progress; see DESIGN.md section 4)'
